@@ -138,7 +138,7 @@ func newUnit(prog *Program, fi *FuncInfo, blk *Block, prop string, suffix string
 		Name: prop + "/" + fi.Key, Suffix: suffix, obIdx: map[string]*Obligation{}, structs: map[string]*StructInfo{},
 		strUsed: map[string]bool{}, errUsed: map[string]bool{}, Assumed: map[string]bool{}, inlined: map[string]bool{},
 		usedContracts: map[string]string{}, addrTaken: map[types.Object]Term{}, modifiesRefs: map[string][]Term{}, poolObjs: map[string]Term{},
-		knownLits: map[string]*litInfo{}, ghosts: map[string]types.Object{}, heapSorts: map[string]Sort{}, ghostTy: map[string]types.Type{}}
+		knownLits: map[string]*litInfo{}, ghosts: map[string]types.Object{}, heapSorts: map[string]Sort{}, ghostTy: map[string]types.Type{}, lamTok: map[string]string{}}
 	u.BV = blk != nil && blk.Arith == "bv"
 	return u
 }
@@ -320,11 +320,15 @@ func (u *Unit) checkPost(o Outcome) {
 		u.retVals = []Value{}
 	}
 	defer func() { u.retVals = nil }()
+	var ens []Clause
 	for i, cl := range u.Block.Of("ensures") {
-		label := cl.Label
-		if label == "" {
-			label = fmt.Sprintf("ens%d", i)
+		if cl.Label == "" {
+			cl.Label = fmt.Sprintf("ens%d", i)
 		}
+		ens = append(ens, u.splitClause(cl)...)
+	}
+	for _, cl := range ens {
+		label := cl.Label
 		sc := *u.ownCtx
 		sc.post = true
 		t, terr := u.trySpec(cl, o.env, &sc)
@@ -439,7 +443,13 @@ func (u *Unit) runGhostKind(env *Env, blk *Block, kind string) {
 			panic(unsupported{"ghostset of undeclared ghost " + name})
 		}
 		sub := Clause{Kind: "ghostset", Text: strings.TrimSpace(cl.Text[i+1:]), Line: cl.Line, File: cl.File}
-		t := u.specTermCtx(sub, env, u.ownCtx)
+		t, gerr := u.trySpecTerm(sub, env, u.ownCtx)
+		if gerr != "" {
+			if strings.Contains(gerr, "unknown name") {
+				continue // names the witness of a call that did not happen on this path: the ghost keeps its value
+			}
+			panic(unsupported{gerr})
+		}
 		if t.Sort != env.vars[obj].Sort {
 			panic(unsupported{fmt.Sprintf("%s:%d: ghostset %s: sort %s, want %s", cl.File, cl.Line, name, t.Sort, env.vars[obj].Sort)})
 		}
@@ -523,4 +533,18 @@ func (u *Unit) trySpec(cl Clause, env *Env, sc *specCtx) (t Term, err string) {
 		}
 	}()
 	return u.specExprCtx(cl, env, sc), ""
+}
+
+func (u *Unit) trySpecTerm(cl Clause, env *Env, sc *specCtx) (t Term, err string) {
+	defer func() {
+		if r := recover(); r != nil {
+			if us, ok := r.(unsupported); ok {
+				err = us.msg
+				u.inSpec = false
+				return
+			}
+			panic(r)
+		}
+	}()
+	return u.specTermCtx(cl, env, sc), ""
 }
